@@ -103,6 +103,8 @@ def gen(rng, idx, tier):
     sc["faults"] = []
     sc["raise"] = {"seed": rng.randrange(10 ** 6), "pct": rng.choice([10, 30, 60, 100])}
     sc["handler_args"] = rng.randrange(2) == 0     # handlers bound as (event, handler) or as (event, handler, [args])
+    # the handler itself: a function, a functools.partial or a callable object (the last two have no __name__)
+    sc["handler_form"] = rng.choice(["function", "function", "partial", "object"])
     return sc
 
 
@@ -215,7 +217,8 @@ def probes(sc, r):
     if sc.get("family") == "intervention":
         return {"intervention_handler_raised": True, "intervention_" + sc["op"]: True}
     return {"handlers_raised": r.obs.get("raised", 0) > 0, "raise_invocations": r.obs.get("raised", 0),
-            "rejected_scenario": bool(sc["acc"]["reject"]), "bound_with_args": bool(sc.get("handler_args"))}
+            "rejected_scenario": bool(sc["acc"]["reject"]), "bound_with_args": bool(sc.get("handler_args")),
+            "handler_is_partial_or_callable_object": sc.get("handler_form") in ("partial", "object")}
 
 
 def sample(sc, r):
